@@ -737,12 +737,14 @@ pub fn run(ctx: &Ctx, rep: &mut Report) {
                     None => continue,
                 };
                 let owner = owners.last().unwrap().clone();
-                let mk = |ver: &'static [u8]| -> Call {
+                // the probe target reports "3.1.4" once its code has been replaced; the two requests
+                // differ in their migration data
+                let mk = |note: &'static [u8]| -> Call {
                     let (up, t) = (upg.clone(), target.clone());
                     Rc::new(move |env: &Env| {
                         let mut data: SVec<Val> = SVec::new(env);
-                        data.push_back(sstr(env, ver).to_val());
-                        flat_any(UpgraderClient::new(env, &up).try_upgrade(&t, &sstr(env, ver), &native_hash(env), &data))
+                        data.push_back(sstr(env, note).to_val());
+                        flat_any(UpgraderClient::new(env, &up).try_upgrade(&t, &sstr(env, b"3.1.4"), &native_hash(env), &data))
                     })
                 };
                 let ep = Ep { holder_may_fail: false, name: "upgrader.upgrade".into(), role: "target's owner", call: mk(b"5.0.0"), other_args: one(mk(b"6.0.0")), beneficiary: None, prep: None };
